@@ -7,6 +7,8 @@
   extent theorems say that the raw items are taken from inside the input and do not overlap.
 -/
 import KmipModel.Lemmas.ReaderLemmas
+import KmipModel.Lemmas.PlanLemmas
+import KmipModel.Gen.Schema
 import KmipModel.Props.C03
 namespace Kmip.C02
 open Kmip
@@ -106,5 +108,97 @@ example : unmarshalValue [0x42, 0, 0x0A, 4, 0, 0, 0, 0] = .err .badLength := by 
 /-- the panicking primitives do panic on the inputs the guards exclude. -/
 example : goU32 [0, 0] = .panic "index out of range [3]" := rfl
 example : goBytesToBigInt [] = .panic "index out of range [0] with length 0" := rfl
+
+/-! ## The typed layer (`ttlv.Unmarshal` into the message types: reflective decoder + hand-written decoders)
+
+`Schema.decodeSafe` (Lemmas/PlanLemmas.lean) is a decidable check of the schema regenerated from the Go
+types: every reflectively decoded struct has only fields of decodable kinds (no interface, no `int8`/`int16`,
+no unsupported type — recursively through pointers and slices) and no untagged interface field; every
+struct with a hand-written decoder names one of the decoders that exist and the declared kinds of the
+fields that decoder reads are decodable; every type that can sit behind an interface is decodable; every
+dyn id produced by the operation / object / attribute tables is a valid index. -/
+
+/-- 5. none of the eight mutually recursive typed decoders panics — any fuel, any cursor (so: any bytes,
+    well-formed or not), any version cell. -/
+theorem typed_decoders_no_panic (S : Schema) (h : S.decodeSafe = true) (fuel : Nat) :
+    (∀ k tag c ver, Kind.leafSafe k = true → ∀ msg, decK S fuel k tag c ver ≠ .panic msg) ∧
+    (∀ fields tag c ver, List.all fields Field.decSafe = true →
+      ∀ msg, decStruct S fuel fields tag c ver ≠ .panic msg) ∧
+    (∀ k tag c ver, Kind.leafSafe k = true → ∀ msg, decList S fuel k tag c ver ≠ .panic msg) ∧
+    (∀ fields c ver, List.all fields Field.decSafe = true →
+      ∀ msg, decFields S fuel fields c ver ≠ .panic msg) ∧
+    (∀ k tag c ver, Kind.leafSafe k = true → ∀ msg, decOpt S fuel k tag c ver ≠ .panic msg) ∧
+    (∀ d tag c ver, d < S.dyns.length → ∀ msg, decDyn S fuel d tag c ver ≠ .panic msg) ∧
+    (∀ code id tag c ver, customSafe S (S.structDef id).fields code = true →
+      ∀ msg, decCustom S fuel code id tag c ver ≠ .panic msg) ∧
+    (∀ fmt c ver, unionSafe S Cust.keyMaterial 8 = true →
+      ∀ msg, decKeyValue S fuel fmt c ver ≠ .panic msg) :=
+  have t := typedNoPanic S ((S.decodeSafe_iff).1 h) fuel
+  ⟨t.decK, t.decStruct, t.decList, t.decFields, t.decOpt, t.decDyn, t.decCustom, t.decKeyValue⟩
+
+/-- 6. `UnmarshalTTLV(bs, new(T))` / `dec.TagAny(tag, new(T))` never panics: for EVERY byte string, every
+    tag and every target type `d` of the schema. -/
+theorem typed_no_panic (S : Schema) (h : S.decodeSafe = true) (d tag : Nat) (bs : Bytes)
+    (hd : d < S.dyns.length) : ∀ msg, unmarshal S d tag bs ≠ .panic msg :=
+  unmarshal_noPanic S h d tag bs hd
+
+/-- the statement without `d < S.dyns.length`. It is FALSE of the model, for a reason that has no
+    counterpart in Go: `Schema.dyn` totalises an out-of-range type id to the kind `.unsupported`, whose
+    decoder is the panic branch. (`typed_no_panic` covers every type id that denotes a type.) -/
+def typed_no_panic_full : Prop :=
+  ∀ (S : Schema), S.decodeSafe = true → ∀ (d tag : Nat) (bs : Bytes) (msg : String),
+    unmarshal S d tag bs ≠ .panic msg
+
+/-- smallest safe schema: one dynamic type, `ttlv.Value`. -/
+def tiny : Schema where
+  structs := []
+  dyns := [{ defTag := 0x420001, kind := .any }]
+  ops := []
+  objects := []
+  attrs := []
+  unknownPayloadDyn := 0
+  valueDyn := 0
+
+theorem typed_no_panic_full_false : ¬ typed_no_panic_full := by
+  intro h
+  have hp : (unmarshal tiny 1 0 [0x42, 0, 1, 2, 0, 0, 0, 4, 0, 0, 0, 7, 0, 0, 0, 0]).isPanic = true := by
+    decide +kernel
+  obtain ⟨m, hm⟩ := (Res.isPanic_iff _).1 hp
+  exact h tiny (by decide +kernel) 1 0 _ m hm
+
+/-- 7. the schema extracted from the current Go types satisfies the condition (re-checked by the kernel
+    every time `Gen/Schema.lean` is regenerated). -/
+theorem gen_schema_decodeSafe : Gen.schema.decodeSafe = true := by decide +kernel
+
+/-- 8. hence decoding arbitrary bytes into any of the library's message / payload / object / attribute
+    types never panics. -/
+theorem gen_typed_no_panic (d tag : Nat) (bs : Bytes) (hd : d < Gen.schema.dyns.length) :
+    ∀ msg, unmarshal Gen.schema d tag bs ≠ .panic msg :=
+  typed_no_panic Gen.schema gen_schema_decodeSafe d tag bs hd
+
+/-! ### non-vacuity (typed layer) -/
+
+/-- the hypotheses are satisfiable: 95 target types. -/
+example : Gen.requestMessageDyn < Gen.schema.dyns.length ∧ Gen.schema.dyns.length = 95 := by
+  decide +kernel
+
+/-- the condition is not vacuous: it rejects a schema with a reflectively decoded interface field… -/
+def unsafeSchema : Schema where
+  structs := [{ fields := [{ tag := 0x420002, kind := .iface }] }]
+  dyns := [{ defTag := 0x420001, kind := .struct 0 }]
+  ops := []
+  objects := []
+  attrs := []
+  unknownPayloadDyn := 0
+  valueDyn := 0
+example : unsafeSchema.decodeSafe = false := by decide +kernel
+/-- …and on that schema the typed decoder does panic (structure 0x420001 containing an Integer 0x420002). -/
+example : (unmarshal unsafeSchema 0 0
+    [0x42, 0, 1, 1, 0, 0, 0, 16, 0x42, 0, 2, 2, 0, 0, 0, 4, 0, 0, 0, 7, 0, 0, 0, 0]).isPanic = true := by
+  decide +kernel
+
+/-- a truncated RequestMessage (header announces 16 bytes, 8 follow) is an error, not a panic. -/
+example : (unmarshal Gen.schema Gen.requestMessageDyn 0
+    [0x42, 0, 0x78, 1, 0, 0, 0, 16, 0x42, 0, 0x77, 1, 0, 0, 0, 0]).isErr = true := by decide +kernel
 
 end Kmip.C02
